@@ -99,7 +99,7 @@ pub fn build(prop: &str, seed: u64, hist: u64, rng: &mut Rng, ids: &[String]) ->
         "C14" => {
             profile = "byz".into();
             fault_cfg = pick_faults(rng, HONEST_LOSSLESS, 1);
-            fault_cfg.insert("byz".into(), 400);
+            fault_cfg.insert("byz".into(), 650);
         }
         "C15" => {
             profile = "rollback".into();
